@@ -36,48 +36,14 @@ DELIMS = [",", ":", "\t", " ", ";", "|"]
 DCLASS = {",": "plain", ":": "plain", ";": "plain", "|": "plain", "\t": "tab", " ": "space"}
 DNAME = {",": "comma", ":": "colon", ";": "semicolon", "|": "bar", "\t": "tab", " ": "space"}
 NUMTYPES = {"i1", "u1", "i2", "u2", "i4", "u4", "i8", "u8", "f4", "f8"}
-ALLCHARS = {"sp", "dl", "a"}
-MECH_INVS = ["MechRefinesModHazards", "HazardsFail", "StepsAgree", "ScanSafe", "RefAccepted"]
+MECH_INVS = ["MechRefinesModHazards", "HazardsHit", "StepsAgree", "ScanSafe", "RefAccepted"]
 ROWS_CLAUSES = ("rows_error", "rows_count", "rows_int", "rows_str", "rows_float")
 
 
-def _fam(name, **kw):
-    d = dict(Types={"i4", "S1"}, Shapes={"s"}, MaxFields=2, MaxRowEl=4, MaxRows=2, Cap=700, Filter="any",
-             IntToks={"p1"}, UIntToks={"z", "p1", "max"}, FltToks={"nan", "fa"}, Chars=set(ALLCHARS), ExhW=3)
-    d.update(kw)
-    return name, d
-
-
-# every family is an exhaustive bounded space of TextCodecMC.tla
-BOUNDS = {
-    "quick": [
-        _fam("adj2", Types={"i4", "S1", "S2"}, IntToks={"p1", "min"}),
-        _fam("adj3", Types={"i4", "S1"}, MaxFields=3, Cap=300),
-        _fam("arr", Types={"i4", "f8", "S1"}, Shapes={"s", "v2"}, MaxRowEl=3, Cap=300),
-        _fam("types", Types=set(NUMTYPES), Shapes={"s", "v2"}, MaxFields=1, Cap=50, Filter="num",
-             IntToks={"min", "m1", "z", "p1", "max"}, FltToks={"nan", "pinf", "ninf", "pz", "nz", "fa", "fb"}),
-        _fam("types22", Types=set(NUMTYPES), Shapes={"m22"}, MaxFields=1, MaxRows=1, Cap=300, Filter="num",
-             IntToks={"min", "z", "max"}, UIntToks={"z", "max"}, FltToks={"nan", "ninf", "nz", "fa"}),
-        _fam("numpair", Types=set(NUMTYPES), MaxFields=2, MaxRows=1, Cap=20, Filter="num",
-             IntToks={"min", "max"}, UIntToks={"max"}, FltToks={"nan", "ninf", "fb"}),
-        _fam("widths", Types={"i4", "S4", "S12"}, Filter="adj", Cap=200),
-    ],
-    "thorough": [
-        _fam("adj2", Types={"i4", "S1", "S2", "S3"}, IntToks={"p1", "min"}, Cap=1700, Chars={"sp", "dl", "a"}),
-        _fam("adj2x", Types={"i4", "f8", "S1", "S2"}, IntToks={"p1"}, FltToks={"nan", "fa"}, Cap=1300,
-             Chars={"sp", "dl", "tb", "a", "1"}),
-        _fam("adj3", Types={"i4", "S1", "S2"}, MaxFields=3, Cap=700),
-        _fam("rows3", Types={"i4", "S1"}, MaxFields=2, MaxRows=3, Cap=600, IntToks={"p1", "min"}),
-        _fam("arr", Types={"i4", "f8", "S1", "S2"}, Shapes={"s", "v2", "m22"}, MaxRowEl=5, Cap=700),
-        _fam("types", Types=set(NUMTYPES), Shapes={"s", "v2", "v3"}, MaxFields=1, MaxRows=3, Cap=700, Filter="num",
-             IntToks={"min", "m1", "z", "p1", "max"}, FltToks={"nan", "pinf", "ninf", "pz", "nz", "fa", "fb"}),
-        _fam("types22", Types=set(NUMTYPES), Shapes={"m22", "m23"}, MaxFields=1, MaxRowEl=6, MaxRows=1, Cap=800, Filter="num",
-             IntToks={"min", "z", "max"}, UIntToks={"z", "max"}, FltToks={"nan", "ninf", "nz", "fa"}),
-        _fam("numpair", Types=set(NUMTYPES), MaxFields=2, MaxRows=2, Cap=90, Filter="num",
-             IntToks={"min", "m1", "max"}, UIntToks={"z", "max"}, FltToks={"nan", "ninf", "fb"}),
-        _fam("widths", Types={"i4", "S4", "S5", "S6", "S7", "S8", "S9", "S10", "S11", "S12"}, Filter="adj", Cap=200),
-        _fam("widths3", Types={"f4", "S5", "S12"}, MaxFields=3, Filter="adj", Cap=150, FltToks={"fa"}),
-    ],
+# the bounded families are defined in TextCodecMC.tla (FamDefs); TLC prints their definitions
+FAMILIES = {
+    "quick": ["q_adj2", "q_adj3", "q_arr", "q_types", "q_types22", "q_numpair", "q_widths"],
+    "thorough": ["t_adj2", "t_adj2x", "t_adj3", "t_rows3", "t_arr", "t_types", "t_types22", "t_numpair", "t_widths", "t_widths3"],
 }
 RANDOM_TABLES = {"quick": 1200, "thorough": 40000}
 
@@ -395,6 +361,17 @@ def plan(idx, ct, tier):
     return out
 
 
+_PLAIN_DELIMS = [",", ":", ";", "|"]
+
+
+def delims_for(idx, tier):
+    """thorough: all six; quick: tab, space and two of the four plain delimiters in rotation
+    (the plain delimiters differ in nothing but the character)"""
+    if tier == "thorough":
+        return list(DELIMS)
+    return ["\t", " ", _PLAIN_DELIMS[idx % 4], _PLAIN_DELIMS[(idx + 1 + (idx // 4) % 3) % 4]]
+
+
 def run_record(job):
     """job = (id, ct, delim, cycles) -> record for TextCodecTrace"""
     rid, ct, delim, cycles = job
@@ -422,8 +399,11 @@ def instantiate(t, rng):
                 for e in cell:
                     if e in ("fa", "fb"):
                         key = (e, f["w"])
-                        if key not in slots:
-                            slots[key] = (lattice_f8 if f["w"] == 8 else lattice_f4)(rng)
+                        while key not in slots:
+                            # fa > 0, fb < 0, printed with a leading non-zero digit like the model's texts "1.5" / "-2e9"
+                            x = abs((lattice_f8 if f["w"] == 8 else lattice_f4)(rng))
+                            if not 1e-4 <= x < 1:
+                                slots[key] = x if e == "fa" else -x
                         c.append(ftoken(slots[key]))
                     else:
                         c.append(e)
@@ -518,10 +498,10 @@ def signatures(rec, k, clauses, hz):
     out = []
     rows = [c for c in clauses if c in ROWS_CLAUSES]
     if rows:
-        if o["order"] == "mixed":
-            out.append(("text.write|same_rows|order=mixed", "same rows (integers and strings exactly, floats on the lattice)"))
-        elif hz != "none":
+        if hz != "none":
             out.append(("text.read|same_rows|delim=%s|%s" % (dc, hz), "same rows (integers and strings exactly, floats on the lattice)"))
+        elif o["order"] == "mixed":
+            out.append(("text.write|same_rows|order=mixed", "same rows (integers and strings exactly, floats on the lattice)"))
         else:
             for c in rows:
                 stage = ("@" + o["stage"]) if c == "rows_error" else ""
@@ -581,103 +561,78 @@ def judge(ctx, recs, what, tally, meta=None):
 
 
 # ---------------------------------------------------------------------------------
-def tlc_family(ctx, name, consts, quick):
-    """design level + export for one bounded family"""
-    has_str = any(t.startswith("S") for t in consts["Types"])
-    has_num = any(not t.startswith("S") for t in consts["Types"])
-    req = ["ChooseLayout", "ChooseRows", "Write", "Finish"] + (["ReadStrField"] if has_str else []) + (["ScanNumField"] if has_num else [])
-    base = dict(consts, DClasses={"plain", "tab", "space"}, Reader="pinned", DoExport=False)
-    r1 = ctx.tlc("TextCodecMC.tla", what="%s: pinned scanner refines the round trip except on the named hazards" % name,
-                 cfg_text=cfg(constants=base, invariants=MECH_INVS), workers=4, require=req, timeout=3000)
-    r2 = ctx.tlc("TextCodecMC.tla", what="%s: repaired scanner refines the round trip" % name,
-                 cfg_text=cfg(constants=dict(base, Reader="fixed"), invariants=["MechRefines", "StepsAgree", "ScanSafe"]),
-                 workers=4, require=req, timeout=3000)
-    r3 = ctx.tlc("TextCodecMC.tla", what="%s: export tables" % name,
-                 cfg_text=cfg(constants=dict(base, DoExport=True), next_="NextExport", constraints=["Export"]),
-                 workers=1, coverage=False, timeout=3000)
-    cases = r3.records.get("CASE", [])
-    if not cases or r3.garbled:
-        raise MachineryError("family %s: %d tables exported, %d unparsed" % (name, len(cases), r3.garbled))
-    return cases, r1, r2
+ACTIONS = ["ChooseLayout", "ChooseRows", "Write", "ReadStrField", "ScanNumField", "Finish"]
 
 
 def run(ctx):
     tier = ctx.tier
-    fams = BOUNDS[tier]
+    fams = set(FAMILIES[tier])
     tally = Tally()
-    # 1. design level: every family, pinned and repaired scanner, and the export (spec -> code)
-    par = max(1, int(os.environ.get("VH_MAX_WORKERS", "16")) // 4)
-    with ThreadPoolExecutor(par) as ex:
-        results = list(ex.map(lambda nc: tlc_family(ctx, nc[0], nc[1], ctx.quick), fams))
-    # 1b. non-vacuity: the pinned scanner must violate the plain round-trip obligation
-    name0, c0 = fams[0]
-    rs = ctx.tlc("TextCodecMC.tla", what="self-test: pinned scanner violates MechRefines",
-                 cfg_text=cfg(constants=dict(c0, DClasses={"plain", "tab", "space"}, Reader="pinned", DoExport=False),
-                              invariants=["MechRefines"]), workers=4, allow_violation=True, coverage=False)
+    base = dict(Fams=fams, DClasses={"plain", "tab", "space"}, Reader="pinned", DoExport=False)
+    # 1. design level, every table of every family x every delimiter class:
+    #    the pinned scanner meets the round-trip obligation off the named hazards ...
+    ctx.tlc("TextCodecMC.tla", what="pinned scanner refines the round trip except on the named hazards",
+            cfg_text=cfg(constants=base, invariants=MECH_INVS), workers=16, require=ACTIONS, timeout=3000)
+    maxw = int(os.environ.get("VH_MAX_WORKERS", "16"))
+    with ThreadPoolExecutor(3) as ex:
+        #    ... the repaired scanner meets it everywhere ...
+        f2 = ex.submit(ctx.tlc, "TextCodecMC.tla", what="repaired scanner refines the round trip",
+                       cfg_text=cfg(constants=dict(base, Reader="fixed"), invariants=["MechRefines", "StepsAgree", "ScanSafe"]),
+                       workers=max(1, maxw - 2), coverage=False, timeout=3000)
+        #    ... and (non-vacuity) the pinned scanner violates the plain obligation
+        fs = ex.submit(ctx.tlc, "TextCodecMC.tla", what="self-test: pinned scanner violates MechRefines",
+                       cfg_text=cfg(constants=dict(base, Fams={FAMILIES[tier][0]}), invariants=["MechRefines"]),
+                       workers=1, allow_violation=True, coverage=False)
+        #    export (spec -> code)
+        f3 = ex.submit(ctx.tlc, "TextCodecMC.tla", what="export tables",
+                       cfg_text=cfg(constants=dict(base, DoExport=True), next_="NextExport", constraints=["Export"]),
+                       workers=1, coverage=False, timeout=3000)
+        r2, rs, r3 = f2.result(), fs.result(), f3.result()
     if "MechRefines" not in rs.violated:
         raise MachineryError("self-test failed: MechRefines not violated by the pinned scanner model")
-    # 2. replay every exported table: every delimiter x (entry point, byte order) plan
+    if r2.distinct < 1000:
+        raise MachineryError("repaired-scanner run explored only %d states" % r2.distinct)
+    cases = r3.records.get("CASE", [])
+    famdefs = {f["name"]: f["def"] for f in r3.records.get("FAMILY", [])}
+    if not cases or r3.garbled or set(famdefs) != fams:
+        raise MachineryError("export: %d tables, %d unparsed lines, families %s" % (len(cases), r3.garbled, sorted(famdefs)))
+    # 2. replay every exported table: every delimiter x (entry point, byte order) plan, in batches
     rng = random.Random(ctx.seed * 7919 + 17)
-    jobs, meta = [], {}
-    ntab = 0
-    fam_count = {}
-    for (name, consts), (cases, _, _) in zip(fams, results):
-        fam_count[name] = len(cases)
-        for c in cases:
-            ntab += 1
-            ct = instantiate(c["t"], rng)
-            for di, delim in enumerate(DELIMS):
-                rid = len(jobs) + 1
-                jobs.append((rid, ct, delim, plan(ntab + di, ct, tier)))
-                meta[rid] = {"ct": ct, "pred": c[DCLASS[delim]], "fam": name}
-    ctx.log("replaying %d tables x %d delimiters" % (ntab, len(DELIMS)))
-    recs = pmap(run_record, jobs)
-    for r in recs:
-        ctx.count({"t": r["t"], "d": r["delim"]})
-    ctx.evaluations += sum(len(r["obs"]) - 1 for r in recs)
-    step = max(1, len(recs) // 5)
-    for r in recs[step // 2::step][:5]:
-        ctx.sample({"delim": r["delim"], "table": r["t"], "observed": {k: r["obs"][0][k] for k in ("entry", "order", "err", "rows")}})
-    judge(ctx, recs, "judge replayed tables (TextCodecTrace)", tally, meta)
-    # 2b. binding of the mechanism model: its predicted failing set against the real failures
-    binding = {}
-    for r in recs:
-        pred_fail = not meta[r["id"]]["pred"]["rt"]
-        for k, o in enumerate(r["obs"]):
-            if o["order"] == "mixed":
-                continue
-            b = binding.setdefault(DNAME[r["delim"]], {"cycles": 0, "model_fail": 0, "real_fail": 0, "disagree": 0})
-            real_fail = (r["id"], k) in tally.rows_failed
-            b["cycles"] += 1
-            b["model_fail"] += pred_fail
-            b["real_fail"] += real_fail
-            b["disagree"] += (pred_fail != real_fail)
+    jobs, preds = [], []
+    fam_count = {f: 0 for f in FAMILIES[tier]}
+    for ntab, c in enumerate(cases, 1):
+        fam_count[c["fam"]] += 1
+        ct = instantiate(c["t"], rng)
+        for di, delim in enumerate(delims_for(ntab, tier)):
+            jobs.append((len(jobs) + 1, ct, delim, plan(ntab + di, ct, tier)))
+            preds.append(c[DCLASS[delim]]["rt"])
+    if min(fam_count.values()) == 0:
+        raise MachineryError("a family exported no table: %s" % fam_count)
+    del cases
+    ctx.log("replaying %d tables, %d (table, delimiter) records" % (ntab, len(jobs)))
+    binding, stats = {}, {"records": 0, "cycles": 0}
+    probe = replay_and_judge(ctx, jobs, preds, tally, "judge replayed tables (TextCodecTrace)", binding, stats, nsample=5)
+    nrep = stats["records"]
     # 3. larger seeded tables (code -> spec)
     nrand = RANDOM_TABLES[tier]
     rrng = random.Random(ctx.seed * 104729 + 5)
-    rjobs, rmeta = [], {}
+    rjobs = []
     for n in range(nrand):
         ct = random_table(rrng)
-        for delim in (DELIMS if tier == "thorough" else [DELIMS[n % 6], DELIMS[(n + 3) % 6]]):
-            rid = len(jobs) + len(rjobs) + 1
-            rjobs.append((rid, ct, delim, plan(n, ct, tier)))
-            rmeta[rid] = {"ct": ct}
-    rrecs = pmap(run_record, rjobs)
-    for r in rrecs:
-        ctx.count({"t": r["t"], "d": r["delim"]})
-    ctx.evaluations += sum(len(r["obs"]) - 1 for r in rrecs)
-    judge(ctx, rrecs, "judge seeded larger tables (TextCodecTrace)", tally, rmeta)
+        for delim in (DELIMS if tier == "thorough" else [DELIMS[n % 6], DELIMS[(n + 2 + n // 6 % 3) % 6]]):
+            rjobs.append((len(jobs) + len(rjobs) + 1, ct, delim, plan(n, ct, tier)))
+    replay_and_judge(ctx, rjobs, None, tally, "judge seeded larger tables (TextCodecTrace)", None, stats, nsample=1)
     # 4. binding self-test: corrupted observations must be rejected, each with its own clause
-    selftest(ctx, recs)
+    selftest(ctx, probe)
     ctx.rule = ("every table of the bounded families %s of TextCodecMC.tla (layouts x rows x cell alphabets, exported by TLC), each "
-                "written and read back with every delimiter of %s through sfile and recfile in little-, big- and mixed-endian memory "
+                "written and read back with %s of %s through sfile and recfile in little-, big- and mixed-endian memory "
                 "order; plus %d seeded tables (<= 6 fields of every type, sub-arrays, <= 8 rows, printable ASCII strings, lattice and "
                 "generic floats); a case is one (table as written, delimiter) pair, distinct by its abstract record, always non-trivial" %
-                (sorted(fam_count), [DNAME[d] for d in DELIMS], nrand))
+                (sorted(fam_count), "every delimiter" if tier == "thorough" else "tab, space and two (rotating) plain delimiters",
+                 [DNAME[d] for d in DELIMS], nrand))
     ctx.exhaustive = True
-    ctx.note(families={n: {k: (sorted(v) if isinstance(v, set) else v) for k, v in c.items()} for n, c in fams},
-             exported_tables=fam_count, replayed_records=len(recs), seeded_records=len(rrecs),
-             cycles=sum(len(r["obs"]) for r in recs) + sum(len(r["obs"]) for r in rrecs),
+    ctx.note(families=famdefs,
+             exported_tables=fam_count, replayed_records=nrep, seeded_records=stats["records"] - nrep, cycles=stats["cycles"],
              mechanism_binding=binding, violations_by_signature=dict(sorted(tally.by_sig.items())),
              undecided=["16th (f8) / 7th (f4) significant digit of floats that need it: decided only to relative 1e-15 / 1e-6 (fields of tier 'gen'); "
                         "equality is demanded on the short-decimal lattice (<= 15 / <= 6 digits), for non-finite values and signed zeros"])
@@ -689,10 +644,51 @@ def run(ctx):
     ctx.trusted_base.append("glibc printf/strtod being correctly rounded (lattice membership)")
 
 
-def selftest(ctx, recs):
-    probe = next((r for r in recs if r["obs"][0]["err"] == "none" and r["obs"][0]["entry"] == "sfile" and
-                  any(f["k"] == "S" for f in r["t"]["fields"]) and any(f["k"] != "S" for f in r["t"]["fields"])
-                  and r["obs"][0]["rows"] == r["t"]["rows"] and r["obs"][0]["hdr"]["has"]), None)
+def is_probe(r):
+    o = r["obs"][0]
+    return (o["err"] == "none" and o["entry"] == "sfile" and o["hdr"]["has"] and o["rows"] == r["t"]["rows"] and
+            any(f["k"] == "S" for f in r["t"]["fields"]) and any(f["k"] != "S" for f in r["t"]["fields"]))
+
+
+def replay_and_judge(ctx, jobs, preds, tally, what, binding, stats, nsample=0, batch=24000):
+    """run the cycles of the jobs against the real code and have TLC judge them, batch by batch
+    (bounded memory); accumulates the mechanism-binding table; returns a clean record for the self-test"""
+    probe = None
+    nb = (len(jobs) + batch - 1) // batch
+    for b in range(nb):
+        part = jobs[b * batch:(b + 1) * batch]
+        recs = pmap(run_record, part)
+        for r in recs:
+            ctx.count({"t": r["t"], "d": r["delim"]})
+            stats["cycles"] += len(r["obs"])
+        ctx.evaluations += sum(len(r["obs"]) - 1 for r in recs)
+        stats["records"] += len(recs)
+        if nsample and b == 0:
+            step = max(1, len(recs) // nsample)
+            for r in recs[step // 2::step][:nsample]:
+                ctx.sample({"delim": r["delim"], "table": r["t"], "observed": {k: r["obs"][0][k] for k in ("entry", "order", "err", "rows")}})
+        if probe is None:
+            probe = next((r for r in recs if is_probe(r)), None)
+        meta = {job[0]: {"ct": job[1]} for job in part}
+        judge(ctx, recs, what + (" [batch %d/%d]" % (b + 1, nb) if nb > 1 else ""), tally, meta)
+        if binding is not None:          # the mechanism model's predicted failing set against the real failures
+            for r in recs:
+                pred_fail = not preds[r["id"] - 1]
+                for k, o in enumerate(r["obs"]):
+                    if o["order"] == "mixed":
+                        continue
+                    bd = binding.setdefault(DNAME[r["delim"]], {"cycles": 0, "model_fail": 0, "real_fail": 0, "disagree": 0})
+                    real_fail = (r["id"], k) in tally.rows_failed
+                    bd["cycles"] += 1
+                    bd["model_fail"] += pred_fail
+                    bd["real_fail"] += real_fail
+                    bd["disagree"] += (pred_fail != real_fail)
+        tally.rows_failed = set()
+        del recs, meta
+    return probe
+
+
+def selftest(ctx, probe):
     if probe is None:
         raise MachineryError("binding self-test: no clean probe record")
     import copy
